@@ -43,7 +43,7 @@ FUNCTIONS = ['Algebra.__post_init__', 'Algebra._prepare_signs', '_compute_sign (
 ASSUMPTIONS = ['signature entries range over {-1,0,1} (solver variables); bases, start indices, spellings and dimensions are enumerated',
                'generator names are single hex digits (kingdon\'s own restriction)',
                'reference closed form sign(I,J) = (-1)^{sum_{j in J} popcount(I>>(j+1))} * prod_{k in I&J} s_k, itself proved Clifford in (c)']
-BOUNDS = {'quick': 'default bases d<=7 x start_index {0,1,2} all pairs (d=8: 6000 sampled pairs), custom bases exhaustive d<=2 + 40 sampled d=3..5 + named algebras (start index inferred from the labels); triples d<=3; (c) width 6; (d) all (p,q,r) d<=4, all explicit orderings d<=3, shifted-label custom bases, graded / cse=False configurations',
+BOUNDS = {'quick': 'default bases d<=7 x start_index {0,1,2} all pairs (d=8: 6000 sampled pairs), custom bases exhaustive d<=2 + 40 sampled d=3..5 + named algebras (start index inferred from the labels); triples d<=3; (c) width 6; (d) all (p,q,r) d<=4, all explicit orderings d<=3, shifted-label custom bases, graded / cse=False configurations; 34 algebras checked after a twin (same (p,q,r) in another ordering, default vs custom basis, other start index; d up to 8) was built and used in the same process',
           'thorough': 'd=8 all 65536 pairs, 400 sampled custom bases, triples d<=4, (c) width 8, (d) all (p,q,r) d<=6, orderings d<=4'}
 OUTSIDE = ['d > 8', 'generator names that are not single hex digits', 'signature entries other than -1, 0, 1']
 OPTS = {'rlimit': 400_000_000, 'canary_every': 3}
@@ -96,6 +96,23 @@ def cases(tier, seed):
         d = rng.choice((2, 3, 3, 4))
         pqr = rng.choice(pat.pqr_all(d))
         out.append(dict(kind='concrete', cfg=dict(p=pqr[0], q=pqr[1], r=pqr[2], basis=pat.random_basis(pqr, rng)), products=(d <= 3)))
+    # algebras that COEXIST in one process: same (p,q,r) with another signature ordering, default next to custom basis,
+    # other start index, other dimension -- the first is built and used, then the second is checked (both orders)
+    twins = [(dict(p=5, q=1, r=1), dict(signature=[1, 1, 1, 0, 1, -1, 1])), (dict(p=4, q=4, start_index=2), dict(signature=[1, -1] * 4, start_index=2)),
+             (dict(p=6, r=1), dict(signature=[1, 1, 1, 0, 1, 1, 1])), (dict(p=2, q=1), dict(signature=[-1, 1, 1])), (dict(p=2, r=1), dict(name='2DPGA')),
+             (dict(p=3, r=1), dict(name='3DPGA')), (dict(p=3), dict(p=3, basis=['e', 'e3', 'e2', 'e1', 'e23', 'e31', 'e12', 'e321'])),
+             (dict(p=3, start_index=0), dict(p=3, start_index=1)), (dict(p=2, q=2), dict(p=3, q=1)), (dict(p=4, q=1), dict(name='STAP')),
+             (dict(p=6, q=1), dict(q=1, p=6, start_index=0)), (dict(p=3, q=3, r=1), dict(p=3, q=3, r=1, graded=False, cse=False))]
+    for A, B in twins:
+        for first, second in ((A, B), (B, A)):
+            dd = len(second['signature']) if 'signature' in second else ({'2DPGA': 3, '3DPGA': 4, 'STAP': 5}[second['name']] if 'name' in second else sum(v for k, v in second.items() if k in 'pqr'))
+            out.append(dict(kind='concrete', cfg=second, before=[first], products=(dd <= 3), sample=(2500 if dd > 6 else 0)))
+    for i in range(10 if tier == 'quick' else 100):
+        d = rng.choice((2, 3, 3, 4))
+        sig = [rng.choice((1, -1, 0)) for _ in range(d)]
+        sig2 = sig[:]
+        rng.shuffle(sig2)
+        out.append(dict(kind='concrete', cfg=dict(signature=sig2), before=[dict(signature=sig), dict(p=sig.count(1), q=sig.count(-1), r=sig.count(0))], products=(d <= 3)))
     # custom bases whose labels do NOT start at the default start index (0 for r == 1, else 1)
     for i in range(24 if tier == 'quick' else 150):
         d = rng.choice((2, 2, 3, 3, 4))
@@ -217,7 +234,22 @@ def _parse_cayley(s):
     return 1, s
 
 
+def _touch(cfg):
+    """construct another algebra first and use its tables (process-level history: module-level caches, shared dicts)."""
+    other = make_alg(cfg)
+    n = 2 ** other.d
+    rng = random.Random(n)
+    for _ in range(40):
+        i, j = rng.randrange(n), rng.randrange(n)
+        other.signs[i, j]
+    ks = sorted({rng.randrange(n) for _ in range(3)})
+    x = other.multivector(keys=tuple(ks), values=[1] * len(ks))
+    x * x, ~x, x.hodge(), x ^ x
+    return other
+
+
 def _run_concrete(desc, V):
+    keep = [_touch(c) for c in desc.get('before', [])]
     alg = make_alg(desc['cfg'])
     if desc.get('expect_start') is not None and alg.start_index != desc['expect_start']:
         return [Fail('start-index', f'basis labels start at {desc["expect_start"]} but the algebra uses start_index={alg.start_index}', fkey='concrete|start-index')]
